@@ -96,7 +96,7 @@ def gen_spec(seed):
     vs = [{'name': 'env$time', 'unit': tunit, 'init': None, 'cmeta': rng.choice([None, 'time']), 'kind': 'time'}]
     nstate = rng.randint(1, 3)
     for i in range(nstate):
-        vs.append({'name': 'c$s%d' % i, 'unit': rng.choice(rng.choice(FAMILIES)), 'init': rng.choice(['1', '0.5', '-2', '0', '3']),
+        vs.append({'name': 'c$s%d' % i, 'unit': rng.choice(rng.choice(FAMILIES)), 'init': rng.choice(['1', '0.5', '-2', '0', '3', '1.23456789e-7', '-3.75e-10', '4.5e-5']),
                    'cmeta': rng.choice([None, 's%d_id' % i]), 'kind': 'state'})
     for i in range(rng.randint(0, 2)):
         vs.append({'name': 'c$in%d' % i, 'unit': rng.choice(rng.choice(FAMILIES)), 'init': rng.choice(['2', '0.25', '10']),
@@ -438,6 +438,18 @@ def conversion_coherence(case):
             bad.append(('C08', 'after conversion %d (convert_variable) the model answers differently from a freshly built model '
                         'with the same variables and equations: %s (current %r, fresh %r)'
                         % (j, ', '.join(diff), co[diff[0]], fo[diff[0]]), {'conv': j, 'differs': diff}))
+        # C10: the ORDER of states / derivatives / derived quantities is the order of introduction of the variables, as in a
+        # freshly built model with the same variables and equations
+        for what, fn in (('get_state_variables', lambda mm: [x.name for x in mm.get_state_variables()]),
+                         ('get_derivatives', lambda mm: [str(x) for x in mm.get_derivatives()]),
+                         ('get_derived_quantities', lambda mm: [x.name for x in mm.get_derived_quantities()])):
+            try:
+                a, b = fn(m), fn(f)
+            except Exception:
+                continue
+            if sorted(a) == sorted(b) and a != b:
+                bad.append(('C10', 'after conversion %d %s is %s, but %s (order of introduction) in a freshly built model with '
+                            'the same variables and equations' % (j, what, a, b), {'conv': j}))
         # C10: get_value of every variable does not depend on how the model was reached
         for x in m.variables():
             def gv(mm, xx):
